@@ -527,6 +527,7 @@ def run(ctx):
             ctx.broken.append(broken[-1])
     ctx.say("peg model correspondence: %s" % json.dumps(pstats))
     resource_exits = {}
+    reported = set()
     # triage crashes: group by signature, keep the shortest input per signature, confirm alone
     by_sig = {}
     for idx, rc, err in crashes:
@@ -543,8 +544,22 @@ def run(ctx):
             resource_exits[sig] = count
             continue
         alone = confirm_alone(hx, line)
+        # attribution can be off by one when a dying process loses its last partial line: a neighbour that crashes on its own
+        # with the batch's sanitizer kind is the better witness
+        kind0 = sig.split(":")[0]
+        if alone is None or classify(alone[1], alone[2]).split(":")[0] != kind0:
+            for j in (idx - 1, idx + 1):
+                if 0 <= j < len(lines):
+                    a2 = confirm_alone(hx, lines[j])
+                    if a2 is not None and classify(a2[1], a2[2]).split(":")[0] == kind0:
+                        alone, idx = a2, j
+                        kind, label, line, _m = cases[j]
+                        break
         if alone is not None:
             sig2 = classify(alone[1], alone[2])
+            if sig2 in reported:
+                continue
+            reported.add(sig2)
             rep = {"kind": "crash", "generator": kind, "mutation": label, "input": line, "how": "echo '%s' | <asan harness harness/C10/fuzz.c>" % line[:60],
                    "rc": alone[1], "stderr": alone[2][-3000:], "inputs_with_this_signature": count}
             if line.startswith("a "):
